@@ -1413,6 +1413,17 @@ func (bc *BlockChain) reorg(oldBlock, newBlock *types.Block) error {
 		addedTxs = append(addedTxs, newChain[i].Transactions()...)
 	}
 
+	// a heavier but shorter chain leaves number -> hash entries of the old
+	// chain above the new head; they are not canonical any more
+	if err == nil && len(newChain) > 0 {
+		for i := newChain[0].NumberU64() + 1; ; i++ {
+			if GetCanonicalHash(bc.db, i) == (common.Hash{}) {
+				break
+			}
+			DeleteCanonicalHash(bc.db, i)
+		}
+	}
+
 	// regardless of WriteTxLookupEntries error
 	diff := types.TxDifference(deletedTxs, addedTxs)
 
